@@ -7,46 +7,44 @@ Import ListNotations.
 (* ------------------------------------------------------------------ names *)
 
 (** Completeness of table_access on names: every spelling (case, quoting, schema /
-    catalog qualification) that PostgreSQL resolves to a listed table is matched.
-    Guards: the identifier is ASCII (Rust's to_lowercase is full Unicode, PostgreSQL
-    folds only A-Z in a UTF8 database) and at most 63 bytes (PostgreSQL truncates
-    longer identifiers, pgcat does not). *)
+    catalog qualification, any script, any length) that PostgreSQL (UTF8 database) resolves
+    to a listed table is matched.  [utf8] is not a restriction of the code's domain: a Rust
+    String always satisfies it, PostgreSQL rejects anything else in a UTF8 database. *)
 Theorem c19_name_complete : forall blocked nm i,
-  last_ident nm = Some i -> ascii_ident i = true -> short_ident i = true ->
+  last_ident nm = Some i -> utf8 (text i) ->
   In (pg_resolve i) blocked -> matches blocked nm = true.
 Proof. exact name_complete. Qed.
 Print Assumptions c19_name_complete.
 
 (** No over-blocking: a matched name does resolve to a listed table. *)
 Theorem c19_name_sound : forall blocked nm, matches blocked nm = true ->
-  exists i, last_ident nm = Some i /\
-            (ascii_ident i = true -> short_ident i = true -> In (pg_resolve i) blocked).
+  exists i, last_ident nm = Some i /\ (utf8 (text i) -> In (pg_resolve i) blocked).
 Proof. exact name_sound. Qed.
 Print Assumptions c19_name_sound.
 
+(** pgcat's clipping (back off from byte 63 to a character boundary) is PostgreSQL's
+    pg_mbcliplen (walk whole characters while they fit). *)
+Theorem c19_clip_is_truncate : forall s, utf8 s -> pg_truncate s = clip63 s.
+Proof. exact clip_is_truncate. Qed.
+Print Assumptions c19_clip_is_truncate.
+
 Definition secrEt : bytes := [115; 101; 99; 114; 195; 137; 116]%N.   (* s e c r U+00C9 t *)
 
-(** Outside the ASCII guard completeness FAILS: the listed table is spelled exactly as
-    listed, unquoted; PostgreSQL (UTF8) keeps the capital E-acute, Rust lower-cases it. *)
-Theorem c19_name_nonascii_refuted : exists blocked nm i,
-  last_ident nm = Some i /\ short_ident i = true /\ In (pg_resolve i) blocked /\ matches blocked nm = false.
-Proof.
-  exists [secrEt], [mkIdent secrEt false], (mkIdent secrEt false).
-  split; [vm_compute; reflexivity|]. split; [vm_compute; reflexivity|].
-  split; [left; vm_compute; reflexivity|vm_compute; reflexivity].
-Qed.
-Print Assumptions c19_name_nonascii_refuted.
+(** Regressions for the two repaired name defects (3943b22): a listed table with a capital
+    E-acute spelled unquoted exactly as listed; a 63-byte listed name spelled with one more
+    character; a 64-byte spelling whose 63rd/64th bytes are one 2-byte character (both sides
+    keep 62 bytes). *)
+Example c19_nonascii_fixed :
+  utf8b 7 secrEt = true /\ pg_resolve (mkIdent secrEt false) = secrEt /\ matches [secrEt] [mkIdent secrEt false] = true.
+Proof. vm_compute. repeat split. Qed.
 
-(** Outside the length guard completeness FAILS: a 63-byte listed name spelled with one
-    more character is truncated by PostgreSQL to the listed table. *)
-Theorem c19_name_truncation_refuted : exists blocked nm i,
-  last_ident nm = Some i /\ ascii_ident i = true /\ In (pg_resolve i) blocked /\ matches blocked nm = false.
-Proof.
-  exists [repeat 97%N 63], [mkIdent (repeat 97%N 64) false], (mkIdent (repeat 97%N 64) false).
-  split; [vm_compute; reflexivity|]. split; [vm_compute; reflexivity|].
-  split; [left; vm_compute; reflexivity|vm_compute; reflexivity].
-Qed.
-Print Assumptions c19_name_truncation_refuted.
+Example c19_truncation_fixed :
+  pg_resolve (mkIdent (repeat 97%N 64) false) = repeat 97%N 63 /\
+  matches [repeat 97%N 63] [mkIdent (repeat 97%N 64) false] = true /\
+  matches [repeat 97%N 63] [mkIdent (repeat 65%N 70) false] = true /\
+  pg_resolve (mkIdent (repeat 97%N 62 ++ [195; 137]%N) true) = repeat 97%N 62 /\
+  matches [repeat 97%N 62] [mkIdent (repeat 97%N 62 ++ [195; 137]%N) true] = true.
+Proof. vm_compute. repeat split. Qed.
 
 (** Message level: if ANY relation the plugin is shown (by sqlparser's visitor, or the
     COPY/DROP names it extracts itself) in ANY statement of the message matches, the
@@ -71,41 +69,43 @@ Print Assumptions c19_deny_sound.
 
 (** For EVERY sequence of client messages (any mix of Q and P/B/D/E/C/S/H, any position,
     inside or outside transactions, parser on or off, transaction or session pooling,
-    failing checkouts): a client message the plugins rejected is never written to a
-    server; the rejected text can reach a server only as a Parse that pgcat re-sends
-    from the client's prepared-statement map, which needs prepared-statement caching. *)
-Theorem c19_enforced_messages : forall c ops it, In it (forwarded (trace c ops)) ->
-  match it with FMsg m => bad_msg c m = false | FParse _ => ps_on c = true end.
+    prepared-statement caching on or off, failing checkouts): nothing the plugins rejected
+    is ever written to a server - neither the client's own Q/P message nor a Parse that
+    pgcat itself re-sends for a Bind/Describe from the client's prepared-statement map. *)
+Theorem c19_enforced : forall c ops it, In it (forwarded (trace c ops)) -> bad_item c it = false.
 Proof. exact enforced. Qed.
-Print Assumptions c19_enforced_messages.
-
-(** Guarded main theorem: without prepared-statement caching nothing rejected reaches a
-    server in any form. *)
-Definition known_ps_cache (c : cfg) : bool := ps_on c.
-Theorem c19_enforced : forall c ops it, known_ps_cache c = false ->
-  In it (forwarded (trace c ops)) -> bad_item c it = false.
-Proof. exact enforced_no_ps. Qed.
 Print Assumptions c19_enforced.
+
+(** When a pending verdict is consumed, no rejected Parse is left in the client's map
+    (0acefb2): a later Bind/Describe of such a name finds nothing. *)
+Theorem c19_rejected_names_forgotten : forall c ops n p,
+  In (n, p) (ps (consume (fst (run c init ops)))) -> bad_msg c p = false.
+Proof. exact names_forgotten. Qed.
+Print Assumptions c19_rejected_names_forgotten.
 
 Definition c_ps : cfg := mkCfg true true true true.
 Definition denied_parse : msg := MP 1 1 7 true (Deny 1).
-(** With caching on it FAILS: Parse(s1, denied) Sync is answered with the error, but
-    buffer_parse had already put s1 into the client's map; Bind(s1) Execute Sync then
-    makes pgcat send that Parse itself. *)
-Theorem c19_ps_cache_refuted : exists c ops it,
-  known_ps_cache c = true /\ In it (forwarded (trace c ops)) /\ bad_item c it = true.
-Proof.
-  exists c_ps, [denied_parse; MS 2 true false; MB 3 1; ME 4; MS 5 true false], (FParse denied_parse).
-  split; [reflexivity|]. split; [vm_compute; tauto|reflexivity].
-Qed.
-Print Assumptions c19_ps_cache_refuted.
+(** Regression for the repaired replay: Parse(s1, denied) Sync, then Bind(s1) Execute Sync.
+    The Bind is answered "does not exist" and the task ends; nothing is forwarded. *)
+Example c19_ps_cache_fixed :
+  trace c_ps [denied_parse; MS 2 true false; MB 3 1; ME 4; MS 5 true false] =
+  [EvErr (EPlugin 1); EvErr EUnknownStmt; EvEnd].
+Proof. reflexivity. Qed.
+
+(** ... and a name that meant an allowed statement before is forgotten too when a rejected
+    Parse re-used it (the client has to prepare it again). *)
+Example c19_reused_name_forgotten :
+  trace c_ps [MP 1 1 7 true Allow; MS 2 true false; MP 3 1 8 true (Deny 3); MS 4 true false; MB 5 1] =
+  [EvCheckout; EvFwd [FMsg (MP 1 1 7 true Allow); FMsg (MS 2 true false)]; EvRelease;
+   EvErr (EPlugin 3); EvErr EUnknownStmt; EvEnd].
+Proof. reflexivity. Qed.
 
 (** A batch with a pending Deny/Intercept is dropped as a whole: no message buffered so
     far is forwarded later, whatever the client sends next (fresh message ids). *)
 Theorem c19_batch_dropped : forall c s ops m,
   is_allow (pout s) = false ->
-  (forall x, In x ops -> ~ In (msg_id x) (ids (ebuf s))) ->
-  In (FMsg m) (forwarded (snd (run c s ops))) -> ~ In (msg_id m) (ids (ebuf s)).
+  (forall x, In x ops -> ~ In (msg_id x) (ids (bmsgs s))) ->
+  In (FMsg m) (forwarded (snd (run c s ops))) -> ~ In (msg_id m) (ids (bmsgs s)).
 Proof. exact batch_dropped. Qed.
 Print Assumptions c19_batch_dropped.
 
@@ -234,6 +234,16 @@ Example c19_example_reply :
       Some [RowDescription [mkCol [97]%N 0 0 25 (-1) (-1) 0; mkCol [98]%N 0 0 23 4 (-1) 0];
             DataRow [Some [117]%N; None]; DataRow [Some [120]%N; Some [52;50]%N];
             CommandComplete s_select; ReadyForQuery 73%N]
+  | _ => False
+  end.
+Proof. vm_compute. reflexivity. Qed.
+
+(** a schema entry without a type (b98e532): no panic, the column has type Any (oid 2276) *)
+Example c19_short_schema_reply :
+  match intercept_run true [117]%N [100]%N [mkRule [115]%N [[ [97]%N ]; []] [[ [49]%N; [50]%N ]]] [[83]%N] with
+  | IReply b => read_reply b =
+      Some [RowDescription [mkCol [97]%N 0 0 2276 (-1) (-1) 0; mkCol [] 0 0 2276 (-1) (-1) 0];
+            DataRow [Some [49]%N; Some [50]%N]; CommandComplete s_select; ReadyForQuery 73%N]
   | _ => False
   end.
 Proof. vm_compute. reflexivity. Qed.
